@@ -19,7 +19,7 @@ if TYPE_CHECKING:
 
 
 class _Processor:
-    __slots__ = ("_conn", "_processed", "actor_run")
+    __slots__ = ("_conn", "_processed", "_reporting", "actor_run")
 
     def __init__(self, _conn: Connection) -> None:
         self._conn = _conn
@@ -27,6 +27,8 @@ class _Processor:
         self.actor_run = middleware_wrapper(self._actor_run, name="actor_run")
         self.actor_run._repid_signal_emitter = self._conn.middleware.emit_signal
         self._processed = 0
+        # ids of the messages whose actor has finished and which are being reported to the broker
+        self._reporting: set[str] = set()
 
     async def get_payload(self, initial_payload: str) -> str:
         if _ArgsBucketInMessageId.check(initial_payload):
@@ -215,13 +217,17 @@ class _Processor:
         raw_payload = await self.get_payload(payload)
 
         result = await self.actor_run(actor, key, parameters, raw_payload, self._conn)
-        if result.reporting_done:  # actor has finished gracefully, but no action is required
-            self._processed += 1
-            return
+        self._reporting.add(key.id_)
+        try:
+            if result.reporting_done:  # actor has finished gracefully, but no action is required
+                self._processed += 1
+                return
 
-        await self.report_to_broker(actor, key, payload, parameters, result)
-        self._processed += 1
-        await self.set_result_bucket(parameters.result, result)
+            await self.report_to_broker(actor, key, payload, parameters, result)
+            self._processed += 1
+            await self.set_result_bucket(parameters.result, result)
+        finally:
+            self._reporting.discard(key.id_)
 
     @property
     def processed(self) -> int:
